@@ -242,6 +242,17 @@ def text(chk, crates):
                 bad.append("trim_end_matches(%s)" % show(pat)[:30])
             else:
                 bad.append(m)
+        # ... and it is the *whole* input that is decoded: the bytes handed to the code page are the function's input,
+        # not a part of it chosen by their value (cutting at the first NUL loses everything behind an embedded one)
+        dcalls = [(bb, t_) for bb, t_ in dec.calls() if "yore::code_pages::" in callee_res(t_) and "::decode" in callee_res(t_)]
+        whole = bool(dcalls)
+        for bb, t_ in dcalls:
+            arg = strip_ref(vx.operand(t_["args"][-1], bb))
+            while arg[0] == "cast":
+                arg = strip_ref(arg[1])
+            if not (arg[0] == "path" and arg[1] == vx.root_name(1) and not arg[2]):
+                whole = False
+                bad.append("decoding only %s" % show(arg)[:50])
         chk.require(not bad, "C17-e/text-trim", inst,
                     "the text decoder alters the decoded text by %s: only trailing NUL padding may be removed (a value with such "
                     "characters elsewhere would not come back)" % bad, "trim_end_matches('\\0') only", dec.sp())
